@@ -3,6 +3,7 @@
 package locking
 
 import (
+	"time"
 	"context"
 	"fmt"
 	"os"
@@ -17,11 +18,19 @@ func flag(name string) bool { return sym.Choice(name, 2) == 1 }
 // process table of the model (answers the liveness probe)
 var alive [1024]bool
 
-func verifProcessRunning(pid int) bool {
-	if pid <= 0 || pid >= len(alive) {
-		return false
+// processes owned by another user: the probe gets EPERM for them while they live
+var foreign [1024]bool
+
+// verifProcessSignal answers kill(pid, 0): 0 = delivered (alive, ours), 1 = EPERM (alive, someone
+// else's), 2 = no such process. processRunning itself is executed as written.
+func verifProcessSignal(pid int) int {
+	if pid <= 0 || pid >= len(alive) || !alive[pid] {
+		return 2
 	}
-	return alive[pid]
+	if foreign[pid] {
+		return 1
+	}
+	return 0
 }
 
 const lockPath = "/grogroot/ws/lockfile"
@@ -97,10 +106,17 @@ func isLivePid(quoted string, remover int) bool {
 // deviation bound), an optional stale lock file, and an optional crash of one process at any step.
 func lockScenario(nProcs int, withCrash bool) {
 	alive = [1024]bool{}
+	foreign = [1024]bool{}
 	if err := os.MkdirAll("/grogroot/ws", 0755); err != nil {
 		panic(err)
 	}
-	switch sym.Choice("preexisting_lock_file", 4) {
+	foreignHolder := false
+	switch sym.Choice("preexisting_lock_file", 5) {
+	case 4:
+		// held by a live build of another user (the probe answers EPERM); it finishes after a while
+		_ = os.WriteFile(lockPath, []byte("500"), 0644)
+		alive[500], foreign[500] = true, true
+		foreignHolder = true
 	case 1:
 		_ = os.WriteFile(lockPath, nil, 0644) // empty (a dead process that never wrote its PID)
 	case 2:
@@ -115,6 +131,16 @@ func lockScenario(nProcs int, withCrash bool) {
 		sym.CrashBudget(0)
 	}
 	holders := 0
+	if foreignHolder {
+		holders = 1
+		go func() {
+			sym.SetPid(500)
+			<-time.After(120 * time.Millisecond) // its build runs (contenders poll every 50 ms)
+			holders--
+			_ = os.Remove(lockPath)
+			alive[500] = false
+		}()
+	}
 	acquired := make([]bool, nProcs)
 	crashed := make([]bool, nProcs)
 	finished := make(chan int, nProcs)
